@@ -66,6 +66,24 @@ func runChild(b *buildOut, p *plan.Plan, wallLimit time.Duration) *plan.Result {
 		raceViolations(res, out.String())
 		return res
 	}
+	if o := out.String(); strings.Contains(o, "\npanic: ") || strings.HasPrefix(o, "panic: ") || strings.Contains(o, "fatal error: ") {
+		// a panic that took the process down: a violation (no client
+		// input, schedule or byte stream may panic the library), with the
+		// goroutine trace as the message
+		i := strings.Index(o, "panic: ")
+		if i < 0 {
+			i = strings.Index(o, "fatal error: ")
+		}
+		msg := o[i:]
+		if len(msg) > 6000 {
+			msg = msg[:6000]
+		}
+		if strings.Contains(msg, "franz-go/pkg/kgo") || strings.Contains(msg, "franz-go/pkg/kfake") || strings.Contains(msg, "franz-go/pkg/kmsg") {
+			res = &plan.Result{Prop: p.Prop, Seed: p.Seed, Stats: map[string]int64{"nontrivial": 1}, TraceHash: fmt.Sprintf("panic-%d", p.Seed), Summary: "panic"}
+			res.Violations = []plan.Violation{{Class: p.Prop + "/panic/process", Msg: "the process died: " + msg}}
+			return res
+		}
+	}
 	why := "no result"
 	if ctx.Err() != nil {
 		why = fmt.Sprintf("watchdog: no result within %v of wall time", wallLimit)
